@@ -10,6 +10,8 @@ import (
 	"bufio"
 	"fmt"
 	"net"
+	"os"
+	"runtime/debug"
 	"strings"
 	"sync"
 	"sync/atomic"
@@ -293,6 +295,13 @@ func (s *Server) serve(cs *connState) {
 		s.mu.Lock()
 		delete(s.conns, cs.id)
 		s.mu.Unlock()
+	}()
+	defer func() {
+		// a panic in a hook (called under the server lock) would otherwise dead-lock the clean-up above and hang the whole check
+		if p := recover(); p != nil {
+			fmt.Fprintf(os.Stderr, "fake.Server: panic while handling a request: %v\n%s\n", p, debug.Stack())
+			os.Exit(3)
+		}
 	}()
 	r := bufio.NewReaderSize(cs.c, 64*1024)
 	w := bufio.NewWriterSize(cs.c, 64*1024)
